@@ -398,7 +398,24 @@ impl Parser {
         let mut values = vec![];
 
         for value_node in input.children() {
-            values.push(Self::value(value_node)?);
+            let value_span = value_node.as_span();
+            let value = Self::value(value_node)?;
+
+            let value_ty = value
+                .for_type(&TypecheckFlags::use_class(
+                    input.user_data().get_type_of_executing_class(),
+                ))
+                .to_err_vec()?;
+
+            if matches!(value_ty.disregard_distractors(true), TypeLayout::Void) {
+                return Err(vec![new_err(
+                    value_span,
+                    &input.user_data().get_source_file_name(),
+                    "cannot store void in a list".to_owned(),
+                )]);
+            }
+
+            values.push(value);
         }
 
         let list = List { values };
